@@ -48,6 +48,14 @@ func swappedFieldArgs(c *Ctx, rule string, pkgs ...string) {
 					continue
 				}
 				n++
+				if j != i && j < len(args) {
+					// a swap: the parameter of this field's name receives, in turn, a field named like the parameter this one went to
+					fb, okb := loadAddr(an.Strip(args[j])).(*ssa.FieldAddr)
+					if !okb || strings.ToLower(fieldNameOf(fb)) != strings.ToLower(callee.Params[i].Name()) {
+						c.R.OK(shortFn(topFn(fn))+"→"+callee.Name()+"/"+fname, c.ipos(call), "not a swap: parameter "+callee.Params[j].Name()+" does not receive a field named "+callee.Params[i].Name())
+						continue
+					}
+				}
 				c.R.Check(j == i, shortFn(topFn(fn))+"→"+callee.Name()+"/"+fname, c.ipos(call), "field "+fname+" goes to parameter "+fname,
 					"the field ."+fieldNameOf(fa)+" is passed for parameter `"+callee.Params[i].Name()+"` although the callee has a parameter `"+callee.Params[j].Name()+"`: the two arguments are swapped (fields are merged by the wrong key: aliases collide with names)")
 			}
